@@ -85,9 +85,21 @@ def binsize_key(bt):
     return "binsize-untrue:other"
 
 
-def check_table(c, util, bt, names):
+def check_table(c, util, bt, names, relabel=None):
     bins = gen.bt_frame(bt)
     b = util.get_binsize(bins)
+    if relabel is not None:
+        # the same table under other row labels (per-chromosome labels as after pd.concat, reversed, offset):
+        # bin-size inference and chromosome lengths are functions of the rows, not of their labels
+        per = [i for _, e in bt for i in range(len(e) - 1)]
+        for lab in (per, list(range(len(bins)))[::-1], [i + 7 for i in range(len(bins))])[relabel % 3:relabel % 3 + 1]:
+            b2 = util.get_binsize(bins.set_axis(lab, axis=0))
+            if not ((b2 is None and b is None) or (b2 is not None and b is not None and int(b2) == int(b))):
+                c.fail("binsize-depends-on-row-labels", f"get_binsize = {b} but {b2} for the same rows labelled {lab[:12]}",
+                       {"bt": bt})
+            cs2 = util.get_chromsizes(bins.set_axis(lab, axis=0))
+            if [int(x) for x in cs2.values] != [e[-1] for _, e in bt]:
+                c.fail("chromsizes-depend-on-row-labels", f"get_chromsizes differs for the same rows labelled {lab[:12]}", {"bt": bt})
     if b is not None:
         ok = model.conforms_fixed(bt, int(b))
         if not ok:
@@ -120,7 +132,7 @@ def run_exh(ctx, shard):
             for ci in range(shard["chroms"]):
                 x, r = divmod(x, len(comps))
                 bt.append([names[ci], comps[r]])
-            b = check_table(c, util, bt, names)
+            b = check_table(c, util, bt, names, relabel=idx)
             n += 1
             if b is not None:
                 reported += 1
@@ -210,7 +222,7 @@ def run_families(ctx, shard):
             continue
         with ctx.case(cid, {"family": fam, "bt": bt}) as c:
             c.feature(f"family:{fam}")
-            b = check_table(c, util, bt, None)
+            b = check_table(c, util, bt, None, relabel=k)
             fw = gen.bt_fixed_width(bt)
             if b is not None:
                 c.feature("reported-fixed")
@@ -270,13 +282,17 @@ def run_cli(ctx, shard):
     for k in range(shard["n"]):
         cid = f"cli:{k}"
         nch = int(rng.integers(1, 5))
-        names = [n for n in gen.gen_names(rng, nch) if " " not in n] or ["chr1"]
+        names = gen.gen_names(rng, nch)
+        if k % 3 == 0 and "chr 1" not in names:
+            names[0] = "chr 1"            # sequence names may contain blanks: the text tables are TAB-delimited
         b = int([1, 3, 10, 1000, 10**6, 5 * 10**6][int(rng.integers(6))])
         lengths = [int(rng.integers(1, 15 * b + 1)) if rng.random() < 0.6 else
                    b * int(rng.integers(1, 5)) + int([0, 1, 2, 7][int(rng.integers(4))]) for _ in names]
         if not ctx.want(cid):
             continue
         with ctx.case(cid, {"chromsizes": list(zip(names, lengths)), "binsize": b}) as c:
+            if any(" " in n_ for n_ in names):
+                c.feature("cli:names-with-blanks")
             d = ctx.newdir()
             cspath = os.path.join(d, "x.chrom.sizes")
             with open(cspath, "w") as f:
